@@ -25,7 +25,9 @@ def proxOf (kind : String) (w : Float) (v : FV) (lam : Float) : FV :=
   match kind with
   | "l1" => v.map (fun a =>
       let m := Float.abs a - lam * w
-      if 0 < m then (if a < 0 then -m else m) else 0)
+      -- `sign(a) * maximum(|a| - lam*w, 0)`: a NaN entry stays NaN (iterates outside the domain of a barrier loss)
+      -- `sign(a) * 0` is `-0.0` for `a < 0` (the sign of the zero is visible through `w / x` of a barrier loss)
+      if a.isNaN || m.isNaN then 0.0 / 0.0 else if 0 < m then (if a < 0 then -m else m) else (if a < 0 then -0.0 else 0.0))
   | "nonneg" => v.map (fun a => if a < 0 then 0 else a)
   | "sql2" => v.map (fun a => a / (1 + 2 * lam * w))
   | _ => v
